@@ -181,7 +181,9 @@ def run_driver(drv, args, timeout=3600, env=None):
     except subprocess.TimeoutExpired:
         raise Infra("driver timed out: %s" % " ".join(args))
     if p.returncode != 0:
-        raise Infra("driver failed (rc=%d): %s\n%s" % (p.returncode, " ".join(args), (p.stdout + p.stderr)[-3000:]))
+        whole = p.stdout + p.stderr
+        m = re.search(r"^fatal error: .*$", whole, re.M)   # the runtime's own verdict comes first, far above the tail
+        raise Infra("driver failed (rc=%d): %s\n%s%s" % (p.returncode, " ".join(args), (m.group(0) + "\n...\n") if m else "", whole[-3000:]))
     return p.stdout
 
 
@@ -266,8 +268,23 @@ def write_replay(pid, family, case, event, dev, extra=None):
     return path
 
 
+FATAL_RE = re.compile(r"^fatal error: (.*)$", re.M)
+
+
+def crashed(e):
+    """the Go runtime's own fatal errors (stack overflow, concurrent map writes, ...) end the driver process:
+    returns the message if the Infra exception carries one"""
+    m = FATAL_RE.search(str(e))
+    return m.group(1) if m else None
+
+
 def replay_event(drv, family, path, env=None):
-    out = run_driver(drv, [family, "-replay", path], env=env)
+    try:
+        out = run_driver(drv, [family, "-replay", path], env=env)
+    except Infra as e:
+        if crashed(e):
+            return dict(ev="crash", fatal=crashed(e))
+        raise
     for ln in out.splitlines():
         ln = ln.strip()
         if ln.startswith("{"):
